@@ -318,13 +318,77 @@ def marshalAttrs (o : RowOpts) : Except E Bytes :=
     ++ (if o.outline > 0 then lit " outlineLevel=\"" ++ itoaInt o.outline ++ lit "\"" else [])
     ++ (if o.hidden then lit " hidden=\"1\"" else []))
 
-/-- `SetColStyle` assignments, most recent first: (min, max, style) -/
-abbrev ColStyles := List (Int × Int × Int)
+/-- the fields of `xlsxCol` the stream writer can set (`BestFit`, `Collapsed`, `Hidden`, `OutlineLevel`, `Phonetic`
+stay zero on a worksheet the stream writer fills); the width is its `FormatFloat(…, 'f', -1, 64)` text -/
+structure Col where
+  min : Int
+  max : Int
+  width : Option Bytes
+  custom : Bool
+  style : Int
+  deriving DecidableEq, Repr
 
-/-- the column part of `prepareCellStyle`: style of the (flattened) column entry covering `col` -/
+/-- `ws.Cols.Col` (`[]` = `ws.Cols == nil`: the column functions never leave an empty list behind) -/
+abbrev ColStyles := List Col
+
+def Col.covers (e : Col) (c : Int) : Bool := e.min ≤ c && c ≤ e.max
+def Col.isSingle (e : Col) (i : Int) : Bool := e.min == i && e.max == i
+def Col.single (e : Col) (i : Int) : Col := { e with min := i, max := i }
+
+/-- `for i := a; i <= b; i++` -/
+def rangeInt (a b : Int) : List Int := (List.range (b + 1 - a).toNat).map (fun (k : Nat) => a + (k : Int))
+
+/-- `fc[idx] = replacer(fc[idx], column)` at the first `idx` with `Min == Max == i` (`inFlat`), if there is one -/
+def updFirst (p : Col → Bool) (f : Col → Col) : List Col → Option (List Col)
+  | [] => none
+  | x :: xs => if p x then some (f x :: xs) else (updFirst p f xs).map (x :: ·)
+
+/-- one iteration of the inner loop of `flatCols` -/
+def flatStep (repl : Col → Col → Col) (fc : List Col) (p : Int × Col) : List Col :=
+  match updFirst (fun e => e.isSingle p.1) (fun e => repl e p.2) fc with
+  | some fc' => fc'
+  | none => fc ++ [p.2.single p.1]
+
+/-- `flatCols(col, cols, replacer)` (col.go) -/
+def flatCols (col : Col) (cols : List Col) (repl : Col → Col → Col) : List Col :=
+  (cols.flatMap fun column => (rangeInt column.min column.max).map fun i => (i, column)).foldl (flatStep repl)
+    ((rangeInt col.min col.max).map col.single)
+
+/-- the replacer of `setColWidth`: the new width, the old style -/
+def replWidth (fc c : Col) : Col := { fc with style := c.style }
+/-- the replacer of `setColStyle`: the new style, the old width -/
+def replStyle (fc c : Col) : Col := { fc with custom := c.custom, width := c.width }
+
+/-- `ws.setColWidth(min, max, width)` -/
+def wsSetColWidth (cols : List Col) (lo hi : Int) (w : Bytes) : List Col :=
+  let col : Col := { min := lo, max := hi, width := some w, custom := true, style := 0 }
+  match cols with
+  | [] => [col]
+  | _ => flatCols col cols replWidth
+
+/-- `ws.setColStyle(min, max, style)`; the width of a column without one is the default column width -/
+def wsSetColStyle (cols : List Col) (lo hi st : Int) : List Col :=
+  flatCols { min := lo, max := hi, width := some (lit Facts.C11.defaultColWidth), custom := false, style := st } cols replStyle
+
+/-- the `<cols>` element `writeSheetData` writes by hand -/
+def renderCol (e : Col) : Bytes :=
+  lit "<col min=\"" ++ itoaInt e.min ++ lit "\" max=\"" ++ itoaInt e.max ++ lit "\""
+  ++ (match e.width with | some w => lit " width=\"" ++ w ++ lit "\" customWidth=\"1\"" | none => [])
+  ++ (if e.style ≠ 0 then lit " style=\"" ++ itoaInt e.style ++ lit "\"" else [])
+  ++ lit "/>"
+
+def renderCols (cols : List Col) : Bytes :=
+  match cols with
+  | [] => []
+  | _ => lit "<cols>" ++ cols.flatMap renderCol ++ lit "</cols>"
+
+/-- everything `writeSheetData` writes: fields 4..5 (external `sv`), the columns, the `sheetData` start tag -/
+def preData (sv : Bytes) (cols : List Col) : Bytes := sv ++ renderCols cols ++ lit "<sheetData>"
+
+/-- the column part of `prepareCellStyle`: the style of the first column entry that covers `col` and has a style -/
 def colStyleAt (cs : ColStyles) (col : Int) : Int :=
-  match cs.find? (fun e => e.1 ≤ col && col ≤ e.2.1) with
-  | some e => e.2.2
+  match cs.find? (fun e => e.covers col && e.style != 0) with
+  | some e => e.style
   | none => 0
 
 /-- `prepareCellStyle(col, row, style)` on a worksheet without stored rows -/
@@ -429,27 +493,33 @@ def mergeCell (s : SW) (tl br : Bytes) : SW × Option E :=
 
 def badCol (c : Int) : Bool := c < (Facts.MinColumns : Int) || c > (Facts.MaxColumns : Int)
 
-/-- `SetColWidth`; width in quarters; `pre'` = the worksheet rendering after the call (external) -/
-def setColWidth (s : SW) (a b w4 : Int) (pre' : Bytes) : SW × Option E :=
+/-- `SetColWidth`; width in quarters (non-negative in the transcript); `sv` = fields 4..5 of the worksheet as
+rendered now (external) -/
+def setColWidth (s : SW) (a b w4 : Int) (sv : Bytes) : SW × Option E :=
   if s.sheetWritten then (s, some .colOrder)
   else if badCol a || badCol b then (s, some .colNumber)
   else if w4 > 4 * (Facts.MaxColumnWidth : Int) then (s, some .colWidth)
-  else ({ s with pre := pre' }, none)
+  else
+    let lo := if a > b then b else a
+    let hi := if a > b then a else b
+    let cols := wsSetColWidth s.colStyles lo hi (fmtQuarter w4.toNat)
+    ({ s with colStyles := cols, pre := preData sv cols }, none)
 
 /-- `SetColStyle` -/
-def setColStyle (s : SW) (a b st : Int) (pre' : Bytes) : SW × Option E :=
+def setColStyle (s : SW) (a b st : Int) (sv : Bytes) : SW × Option E :=
   if s.sheetWritten then (s, some .colOrder)
   else if badCol a || badCol b then (s, some .colNumber)
   else if st < 0 || s.nStyles ≤ st then (s, some .style)
   else
     let lo := if b < a then b else a
     let hi := if b < a then a else b
-    ({ s with colStyles := (lo, hi, st) :: s.colStyles, pre := pre' }, none)
+    let cols := wsSetColStyle s.colStyles lo hi st
+    ({ s with colStyles := cols, pre := preData sv cols }, none)
 
-/-- `SetPanes`; `ok` = whether `ws.setPanes` accepts the options (external) -/
-def setPanes (s : SW) (ok : Bool) (pre' : Bytes) : SW × Option E :=
+/-- `SetPanes`; `ok` = whether `ws.setPanes` accepts the options, `sv` = fields 4..5 afterwards (external) -/
+def setPanes (s : SW) (ok : Bool) (sv : Bytes) : SW × Option E :=
   if s.sheetWritten then (s, some .colOrder)
-  else if ok then ({ s with pre := pre' }, none) else (s, some .panes)
+  else if ok then ({ s with pre := preData sv s.colStyles }, none) else (s, some .panes)
 
 /-- external at Flush: `fields[i]` = what `bulkAppendFields(ws, i, i)` (reflection + `encoding/xml`) renders for
 field `i` of `xlsxWorksheet` (index 0 is the mutex), and the `<tableParts>` string `AddTable` left in the writer -/
